@@ -28,7 +28,7 @@ func init() {
 type reject struct {
 	ret   *ssa.Return
 	field string
-	lits  []Lit
+	lits  []string // canonical literal strings with the configuration rooted at "cfg."
 }
 
 // validatorFn: the func(ElectionConfig) error called by the constructor on its config parameter.
@@ -44,13 +44,7 @@ func (m *Model) validatorFn() (*ssa.Function, *ssa.Call) {
 			return
 		}
 		g := call.Call.StaticCallee()
-		if g == nil || !m.isLib(g) || g.Signature.Params().Len() != 1 || g.Signature.Results().Len() != 1 {
-			return
-		}
-		if n := namedOf(g.Signature.Params().At(0).Type()); n == nil || n.Obj().Name() != "ElectionConfig" {
-			return
-		}
-		if !isErrorType(g.Signature.Results().At(0).Type()) {
+		if g == nil || !m.isValidatorLike(g) {
 			return
 		}
 		vf, site = g, call
@@ -58,56 +52,216 @@ func (m *Model) validatorFn() (*ssa.Function, *ssa.Call) {
 	return vf, site
 }
 
+// isValidatorLike: a library func(ElectionConfig) error.
+func (m *Model) isValidatorLike(g *ssa.Function) bool {
+	if g == nil || !m.isLib(g) || g.Blocks == nil || g.Signature.Params().Len() != 1 || g.Signature.Results().Len() != 1 {
+		return false
+	}
+	if n := namedOf(g.Signature.Params().At(0).Type()); n == nil || n.Obj().Name() != "ElectionConfig" {
+		return false
+	}
+	return isErrorType(g.Signature.Results().At(0).Type())
+}
+
+// cfgNorm roots the configuration accesses of a validator-like function at "cfg.".
+func cfgNorm(s string, f *ssa.Function) string {
+	p := f.Params[0].Name()
+	s = strings.ReplaceAll(s, "local:"+f.Name()+"/"+p+".", "cfg.")
+	s = strings.ReplaceAll(s, "param:"+p+".", "cfg.")
+	return s
+}
+
+// rejectTable extracts every (condition, field) under which the validator returns a non-nil
+// error, following helper validators (func(ElectionConfig) error called on the same
+// configuration whose non-nil result is returned). accept = literals holding at the accepting exits.
 func (m *Model) rejectTable() ([]reject, []string, *ssa.Function) {
 	vf, _ := m.validatorFn()
 	if vf == nil {
 		return nil, []string{"no validator func(ElectionConfig) error called by the constructor"}, nil
 	}
 	var problems []string
-	if len(cfgLoops(vf)) > 0 {
-		problems = append(problems, "the validator contains a loop: its reject table cannot be read off its control flow")
-	}
 	var out []reject
-	for _, b := range liveBlocks(vf) {
-		ret, ok := b.Instrs[len(b.Instrs)-1].(*ssa.Return)
-		if !ok || b == vf.Recover {
-			continue
+	m.validatorAccept = map[string]bool{}
+	var visit func(f *ssa.Function, prefix []string, depth int)
+	visit = func(f *ssa.Function, prefix []string, depth int) {
+		if depth > 3 {
+			problems = append(problems, "validator helpers nested deeper than 3")
+			return
 		}
-		v := returnValue(ret, 0)
-		if k, isConst := v.(*ssa.Const); isConst && k.Value == nil {
-			continue
+		if len(cfgLoops(f)) > 0 {
+			problems = append(problems, "the validator "+shortFn(f)+" contains a loop: its reject table cannot be read off its control flow")
 		}
-		// the error value: NewValidationError(field, ...) (possibly wrapped in MakeInterface / ChangeInterface)
-		field := ""
-		x := v
-		for {
-			switch y := x.(type) {
-			case *ssa.MakeInterface:
-				x = y.X
-				continue
-			case *ssa.ChangeInterface:
-				x = y.X
+		isHelperNil := func(l Lit) (*ssa.Function, bool) {
+			// (call h(cfg) == nil)
+			if l.S.Op == "bin" && l.S.Name == "==" {
+				for i := 0; i < 2; i++ {
+					if l.S.Args[i].String() == "nil" {
+						if call, ok := l.S.Args[1-i].V.(*ssa.Call); ok {
+							if h := call.Call.StaticCallee(); h != nil && h != f && m.isValidatorLike(h) {
+								return h, true
+							}
+						}
+					}
+				}
+			}
+			return nil, false
+		}
+		for _, b := range liveBlocks(f) {
+			ret, ok := b.Instrs[len(b.Instrs)-1].(*ssa.Return)
+			if !ok || b == f.Recover {
 				continue
 			}
-			break
-		}
-		if call, ok := x.(*ssa.Call); ok && len(call.Call.Args) > 0 {
-			if s, ok := constStr(call.Call.Args[0]); ok {
-				field = s
+			v := returnValue(ret, 0)
+			var lits []string
+			lits = append(lits, prefix...)
+			var helperRejecting *ssa.Function
+			for _, l := range m.Guards(b) {
+				if h, ok := isHelperNil(l); ok {
+					if !l.Truth {
+						helperRejecting = h // this exit passes on h's error
+					}
+					continue // helper outcomes are expanded, not kept as literals
+				}
+				lits = append(lits, cfgNorm(l.String(), f))
 			}
+			if k, isConst := v.(*ssa.Const); isConst && k.Value == nil {
+				if depth == 0 || true {
+					cur := map[string]bool{}
+					for _, x := range lits {
+						cur[x] = true
+					}
+					// helpers that returned nil on the way contribute their accept facts
+					for _, l := range m.Guards(b) {
+						if h, ok := isHelperNil(l); ok && l.Truth {
+							for k := range m.acceptFactsOf(h) {
+								cur[k] = true
+							}
+						}
+					}
+					if f == vf {
+						if len(m.validatorAccept) == 0 {
+							m.validatorAccept = cur
+						} else {
+							for k := range m.validatorAccept {
+								if !cur[k] {
+									delete(m.validatorAccept, k)
+								}
+							}
+						}
+					}
+				}
+				continue
+			}
+			// tail delegation: `return h(cfg)` (not `if err := h(cfg); err != nil { return err }`)
+			if call, ok := v.(*ssa.Call); ok && helperRejecting == nil {
+				if h := call.Call.StaticCallee(); h != nil && h != f && m.isValidatorLike(h) {
+					var pre []string
+					pre = append(pre, lits...)
+					for _, l := range m.Guards(b) {
+						if h2, ok := isHelperNil(l); ok && l.Truth {
+							for k := range m.acceptFactsOf(h2) {
+								pre = append(pre, k)
+							}
+						}
+					}
+					if f == vf {
+						cur := map[string]bool{}
+						for _, x := range pre {
+							cur[x] = true
+						}
+						for k := range m.acceptFactsOf(h) {
+							cur[k] = true
+						}
+						if len(m.validatorAccept) == 0 {
+							m.validatorAccept = cur
+						} else {
+							for k := range m.validatorAccept {
+								if !cur[k] {
+									delete(m.validatorAccept, k)
+								}
+							}
+						}
+					}
+					visit(h, pre, depth+1)
+					continue
+				}
+			}
+			if helperRejecting != nil {
+				// facts of the helpers that accepted before it are fall-through facts
+				var pre []string
+				pre = append(pre, lits...)
+				for _, l := range m.Guards(b) {
+					if h, ok := isHelperNil(l); ok && l.Truth {
+						for k := range m.acceptFactsOf(h) {
+							pre = append(pre, k)
+						}
+					}
+				}
+				visit(helperRejecting, pre, depth+1)
+				continue
+			}
+			// the error value: NewValidationError(field, ...) (possibly wrapped)
+			field := ""
+			x := v
+			for {
+				switch y := x.(type) {
+				case *ssa.MakeInterface:
+					x = y.X
+					continue
+				case *ssa.ChangeInterface:
+					x = y.X
+					continue
+				}
+				break
+			}
+			if call, ok := x.(*ssa.Call); ok && len(call.Call.Args) > 0 {
+				if sv, ok := constStr(call.Call.Args[0]); ok {
+					field = sv
+				}
+			}
+			if field == "" {
+				problems = append(problems, fmt.Sprintf("reject at %s does not name a field through a constant first argument", m.P.pos(ret.Pos())))
+			}
+			out = append(out, reject{ret: ret, field: field, lits: lits})
 		}
-		if field == "" {
-			problems = append(problems, fmt.Sprintf("reject at %s does not name a field through a constant first argument", m.P.pos(ret.Pos())))
-		}
-		out = append(out, reject{ret: ret, field: field, lits: m.Guards(b)})
 	}
+	visit(vf, nil, 0)
 	return out, problems, vf
 }
 
+// acceptFactsOf: literals (rooted at cfg.) holding at every nil-returning exit of a validator-like function.
+func (m *Model) acceptFactsOf(f *ssa.Function) map[string]bool {
+	var acc map[string]bool
+	for _, b := range liveBlocks(f) {
+		ret, ok := b.Instrs[len(b.Instrs)-1].(*ssa.Return)
+		if !ok || b == f.Recover {
+			continue
+		}
+		if k, isConst := returnValue(ret, 0).(*ssa.Const); !isConst || k.Value != nil {
+			continue
+		}
+		cur := map[string]bool{}
+		for _, l := range m.Guards(b) {
+			cur[cfgNorm(l.String(), f)] = true
+		}
+		if acc == nil {
+			acc = cur
+		} else {
+			for k := range acc {
+				if !cur[k] {
+					delete(acc, k)
+				}
+			}
+		}
+	}
+	if acc == nil {
+		acc = map[string]bool{}
+	}
+	return acc
+}
+
 func (m *Model) expectedRejects(vf *ssa.Function) map[string]string {
-	// cfg access path inside the validator
-	p := "local:" + vf.Name() + "/" + vf.Params[0].Name() + "."
-	f := func(n string) string { return p + n }
+	f := func(n string) string { return "cfg." + n }
 	cube := func(lits ...string) string {
 		sort.Strings(lits)
 		return "{" + strings.Join(lits, "; ") + "}"
@@ -127,17 +281,18 @@ func (m *Model) expectedRejects(vf *ssa.Function) map[string]string {
 	}
 }
 
-// cubeOf splits a reject's facts into its cube and the fall-through negations of the
-// single-condition rejects that precede it (those negations carry no information of their own).
-func cubeOf(r reject, fallThrough map[string]bool) (cube string, extras []string) {
+// cubeOf returns a reject's own condition: its facts minus the facts that also hold at the
+// validator's accepting return (the fall-through negations of the single-condition rejects).
+func cubeOf(r reject, acceptFacts map[string]bool) (cube string, extras []string) {
 	var lits []string
 	for _, l := range r.lits {
-		if !l.Truth && fallThrough[l.S.String()] {
+		if acceptFacts[l] {
 			continue
 		}
-		lits = append(lits, l.String())
+		lits = append(lits, l)
 	}
 	sort.Strings(lits)
+	lits = uniq(lits)
 	return "{" + strings.Join(lits, "; ") + "}", nil
 }
 
@@ -151,19 +306,7 @@ func checkC16(c *Ctx) {
 		return
 	}
 	want := m.expectedRejects(vf)
-	// fall-through set: the sole positive literal of every reject whose positive part is a single literal
-	allPos := map[string]bool{}
-	for _, r := range rejects {
-		var pos []string
-		for _, l := range r.lits {
-			if l.Truth {
-				pos = append(pos, l.S.String())
-			}
-		}
-		if len(pos) == 1 {
-			allPos[pos[0]] = true
-		}
-	}
+	allPos := m.validatorAccept
 	seen := map[string]bool{}
 	for _, r := range rejects {
 		cube, extras := cubeOf(r, allPos)
@@ -171,7 +314,7 @@ func checkC16(c *Ctx) {
 		key := "reject " + r.field + " when " + cube
 		switch {
 		case !ok:
-			c.viol("R1", key, r.ret, "this reject is not in the documented table (a configuration the documentation accepts is refused, or a boundary moved). Documented cubes: %s", strings.Join(sortedKeys(want), " | "))
+			c.viol("R1", key, r.ret, "this reject is not in the documented table (a configuration the documentation accepts is refused, or a boundary moved). Documented cubes: %s. Fall-through facts: %v", strings.Join(sortedKeys(want), " | "), keys(allPos))
 		case wantField != r.field:
 			c.viol("R1", key, r.ret, "the error names field %q; the offending field is %q", r.field, wantField)
 		case len(extras) > 0:
@@ -210,6 +353,38 @@ func checkC16(c *Ctx) {
 	}
 	c.check(argOK, "R2", "validator receives the constructor's config parameter", site, "argument %s is the unmodified parameter: %v (a configuration rewritten before validation - defaults filled in, values clamped - makes documented-invalid inputs pass)", m.Sym.Of(site.Call.Args[0]), argOK)
 	nContacts := 0
+	// provider contacts inside constructor helpers: the helper call must come after the validator
+	eachInstr(ctor, func(in ssa.Instruction) {
+		call, ok := in.(*ssa.Call)
+		if !ok {
+			return
+		}
+		g := call.Call.StaticCallee()
+		if g == nil || !m.isLib(g) || g == vf || !m.isCtorCode(g) {
+			return
+		}
+		contacts := false
+		for _, h := range sortedFns(m.staticReach(g, true)) {
+			eachInstr(h, func(x ssa.Instruction) {
+				if c2, ok := x.(*ssa.Call); ok && c2.Call.IsInvoke() {
+					if n := namedOf(c2.Call.Value.Type()); n != nil && n.Obj().Pkg() == m.P.Leader.Pkg && (n.Obj().Name() == "JetStreamProvider" || n.Obj().Name() == "JetStreamContext" || n.Obj().Name() == "NATSConnectionProvider" || n == m.KVIface) {
+						contacts = true
+					}
+				}
+				if _, isGo := x.(*ssa.Go); isGo {
+					contacts = true
+				}
+			})
+		}
+		if contacts {
+			nContacts++
+			gs := m.GuardsAt(in)
+			errNil := hasLit(gs, true, func(s *Sym) bool {
+				return s.Op == "bin" && s.Name == "==" && symMentions(s, "nil") && symMentions(s, funcName(vf)+"(")
+			})
+			c.check(dominatesInstr(site, in) && errNil, "R2", fmt.Sprintf("validation before constructor helper %s", shortFn(g)), in, "validator call dominates: %v; reached only with its result == nil: %v", dominatesInstr(site, in), errNil)
+		}
+	})
 	eachInstr(ctor, func(in ssa.Instruction) {
 		switch x := in.(type) {
 		case *ssa.Go:
@@ -275,11 +450,10 @@ func ttlMarginEnforced(c *Ctx) (bool, string) {
 	if vf == nil {
 		return false, "validator not found"
 	}
-	p := "local:" + vf.Name() + "/" + vf.Params[0].Name() + "."
-	want := fmt.Sprintf("(%sTTL < (3 * %sHeartbeatInterval))", p, p)
+	want := "(cfg.TTL < (3 * cfg.HeartbeatInterval))"
 	for _, r := range rejects {
 		for _, l := range r.lits {
-			if l.Truth && l.S.String() == want {
+			if l == want {
 				return true, "validator rejects " + want
 			}
 		}
